@@ -122,24 +122,7 @@ theorem tie_src_core_BeaconProcess_storeDKGOutput : Gen.ScriptsC15.core_BeaconPr
   "}"
 ] := rfl
 
-/-- two reviewed texts: the one before and the one after `fix: key files are replaced atomically (write to a temporary
-file, then rename)`; which of the two the tree under test has is `Gen.keySaveVariant` (tie_keySave, C13) -/
 theorem tie_src_key_Save : Gen.ScriptsC15.key_Save = [
-  "func Save(filePath string, t Tomler, secure bool) error {",
-  " var fd *os.File",
-  " var err error",
-  " if secure {",
-  "  fd, err = fs.CreateSecureFile(filePath)",
-  " } else {",
-  "  fd, err = os.Create(filePath)",
-  " }",
-  " if err != nil {",
-  "  return fmt.Errorf(\"config: can't save %s to %s: %w\", reflect.TypeOf(t).String(), filePath, err)",
-  " }",
-  " defer fd.Close()",
-  " return toml.NewEncoder(fd).Encode(t.TOML())",
-  "}"
-] ∨ Gen.ScriptsC15.key_Save = [
   "func Save(filePath string, t Tomler, secure bool) error {",
   " tmpPath := filePath + tmpExtension",
   " var fd *os.File",
@@ -168,8 +151,7 @@ theorem tie_src_key_Save : Gen.ScriptsC15.key_Save = [
   " }",
   " return err",
   "}"
-] := by
-  first | exact Or.inl rfl | exact Or.inr rfl
+] := rfl
 
 theorem tie_src_key_fileStore_SaveGroup : Gen.ScriptsC15.key_fileStore_SaveGroup = [
   "func (f *fileStore) SaveGroup(g *Group) error {",
